@@ -1,0 +1,155 @@
+//! Read-only observers for the simulation harness (`--cfg feoxdb_verif` only).
+
+use std::sync::atomic::Ordering;
+use std::sync::Arc;
+
+use crate::core::record::Record;
+
+use super::FeoxStore;
+
+/// One generation as the indexes hold it.
+#[derive(Clone, Debug, PartialEq, Eq)]
+pub struct VerifKey {
+    pub key: Vec<u8>,
+    pub timestamp: u64,
+    pub expiry: u64,
+    pub value_len: usize,
+    pub sector: u64,
+    pub resident: bool,
+    pub refcount: u32,
+    pub extent_state: u32,
+    pub cached: bool,
+}
+
+/// Free-space manager as it sees itself.
+#[derive(Clone, Debug, PartialEq, Eq)]
+pub struct VerifSpace {
+    pub runs_by_start: Vec<(u64, u64)>,
+    pub runs_by_size: Vec<(u64, u64)>,
+    pub total_free_bytes: u64,
+    pub largest_free_bytes: u64,
+    pub free_chunks: usize,
+    pub fragmentation: u32,
+}
+
+fn describe(store: &FeoxStore, record: &Arc<Record>) -> VerifKey {
+    let cached = store
+        .cache
+        .as_ref()
+        .is_some_and(|cache| cache.get_for_record_quiet(&record.key, record));
+    VerifKey {
+        key: record.key.clone(),
+        timestamp: record.timestamp,
+        expiry: record.ttl_expiry.load(Ordering::Acquire),
+        value_len: record.value_len,
+        sector: record.sector.load(Ordering::Acquire),
+        resident: record.value.read().is_some(),
+        refcount: record.refcount.load(Ordering::Acquire),
+        extent_state: record.verif_extent_state(),
+        cached,
+    }
+}
+
+impl FeoxStore {
+    /// Current generation of `key` in the hashed index (takes no storage lock).
+    pub fn verif_key(&self, key: &[u8]) -> Option<VerifKey> {
+        let record = self.hash_table.read(key, |_, record| Arc::clone(record))?;
+        Some(describe(self, &record))
+    }
+
+    /// Every generation in the hashed index, sorted by key.
+    pub fn verif_hash_keys(&self) -> Vec<VerifKey> {
+        let mut records = Vec::new();
+        self.hash_table
+            .scan(|_, record| records.push(Arc::clone(record)));
+        let mut keys: Vec<_> = records.iter().map(|r| describe(self, r)).collect();
+        keys.sort_by(|a, b| a.key.cmp(&b.key));
+        keys
+    }
+
+    /// Every (key, generation timestamp, generation expiry) in the ordered index, in index order.
+    pub fn verif_tree_keys(&self) -> Vec<(Vec<u8>, u64, u64)> {
+        let guard = &crossbeam_epoch::pin();
+        self.tree
+            .iter()
+            .map(|entry| {
+                let record = entry.value().load(guard);
+                (
+                    entry.key().clone(),
+                    record.timestamp,
+                    record.ttl_expiry.load(Ordering::Acquire),
+                )
+            })
+            .collect()
+    }
+
+    /// Free-space state; goes through the (shimmed) free-space lock.
+    pub fn verif_space(&self) -> VerifSpace {
+        let free_space = self.free_space.read();
+        let (runs_by_start, runs_by_size) = free_space.verif_runs();
+        VerifSpace {
+            runs_by_start,
+            runs_by_size,
+            total_free_bytes: free_space.get_total_free(),
+            largest_free_bytes: free_space.get_largest_free_chunk(),
+            free_chunks: free_space.get_free_chunks_count(),
+            fragmentation: free_space.get_fragmentation(),
+        }
+    }
+
+    pub fn verif_shard_counts(&self) -> Vec<usize> {
+        self.write_buffer
+            .as_ref()
+            .map(|wb| wb.verif_shard_counts())
+            .unwrap_or_default()
+    }
+
+    pub fn verif_retirements_pending(&self) -> Option<usize> {
+        match self.write_buffer.as_ref() {
+            Some(wb) => wb.verif_retirements_pending(),
+            None => Some(0),
+        }
+    }
+
+    pub fn verif_worker_count(&self) -> usize {
+        self.write_buffer
+            .as_ref()
+            .map_or(0, |wb| wb.verif_worker_count())
+    }
+
+    pub fn verif_shard_of(&self, key: &[u8]) -> Option<usize> {
+        self.write_buffer.as_ref().map(|wb| wb.verif_shard_of(key))
+    }
+
+    pub fn verif_clock_shard_of(&self, key: &[u8]) -> usize {
+        self.version_clock.shard_index(key)
+    }
+
+    pub fn verif_record_overhead() -> usize {
+        std::mem::size_of::<Record>()
+    }
+
+    pub fn verif_format_version(&self) -> u32 {
+        self.format_version
+    }
+
+    pub fn verif_device_size(&self) -> u64 {
+        self.device_size
+    }
+
+    pub fn verif_disk_usage(&self) -> u64 {
+        self.stats.disk_usage.load(Ordering::Relaxed)
+    }
+
+    pub fn verif_cache_entries(&self) -> Option<Vec<(Vec<u8>, usize, usize, bool, bool)>> {
+        self.cache.as_ref().map(|cache| cache.verif_entries())
+    }
+
+    pub fn verif_cache(&self) -> Option<&Arc<crate::core::cache::ClockCache>> {
+        self.cache.as_ref()
+    }
+
+    pub fn verif_ambiguous_legacy_markers(&self) -> u64 {
+        self.ambiguous_legacy_markers
+    }
+}
